@@ -1,6 +1,6 @@
 """C05 — the daily schedule is complete and chronologically ordered (engine M)."""
 from ..common import *
-from ..obl import base, policy, kernels, wiring, rounding, jd
+from ..obl import base, policy, kernels, wiring, rounding, jd, transit
 from . import policyprop as pp
 from . import kernelprop as kp
 
@@ -21,7 +21,7 @@ def run(rep):
         "under rounding the order is preserved because hour_to_time is monotone (C11)"]
     obls = [(wiring.prayer_times_dt_wiring, False), (wiring.get_hours_wiring, None), (kernels.order_twilight_vs_riseset, 60),
             (kernels.fajr_isha_monotone, 60), (kernels.asr, 60), (policy.policy_clauses, ("None", ["none"], "named")),
-            (jd.jd_formula, (1600, 2399)), (policy.imsaak, None)]
+            (jd.jd_formula, (1600, 2399)), (policy.imsaak, None), (transit.ra_deltas, None), (transit.dhuhr_transit, None)]
     obls += [(rounding.rounding, (m, k, -50, 75, 1500)) for m in ("None", "SpecialRounding") for k in ("Fajr", "Shurooq", "Isha")]
     results = base.run_obligations(rep, obls)
     cands = [c for x in results for c in x["cands"]]
@@ -30,6 +30,9 @@ def run(rep):
         c11.confirm_rounding(rep, results)
         c01.confirm_jd(rep, results) if any(x["cands"] for x in results if x["name"].startswith("JulianDay")) else None
         a = pp.confirm_kadj(rep, results, "C05")
+        tr = [x for x in results if x.get("fn") in ("ra_deltas", "dhuhr_transit")]
+        if any((x["cands"] or x["inconclusive"]) for x in tr):
+            c01.confirm(rep, tr)       # Dhuhr is the pivot of the order: it must be the transit (RA wrap days included)
         if any((x["cands"] or x["inconclusive"]) for x in results if x.get("fn") == "imsaak") or rep.tier == "thorough":
             pp.imsaak_grid(rep)
         kres = [x for x in results if x["name"].startswith(("order", "get_fajr", "get_asr"))]
